@@ -515,6 +515,40 @@ def out_of_subset(gen, rng):
     return items, tag
 
 
+def names_catalog():
+    """front-end only (these need not compile): declarations named with Rust reserved words (ordinary XDR identifiers; the emitters
+    escape them with `_v`, the indexes must not), next to a declaration that already carries the escaped spelling; members named like
+    their own declaration or like the type they refer to.  Returns [(tag, items)]."""
+    out = []
+    kws = ["ref", "match", "type", "use", "mod", "fn", "impl", "self", "Self", "loop", "move", "in", "as", "where", "dyn", "async"]
+    for i, kw in enumerate(kws):
+        prim = ["unsigned int", "int", "hyper", "unsigned hyper"][i % 4]
+        items = [{"k": "typedef", "ty": prim, "name": kw, "arr": None},
+                 {"k": "struct", "name": "holder", "fields": [{"ty": kw, "name": "r", "arr": None, "opt": False}, {"ty": kw, "name": "rs", "arr": ["var", ""], "opt": False},
+                                                              {"ty": "plain", "name": "p", "arr": None, "opt": False}]},
+                 {"k": "typedef", "ty": "int", "name": "plain", "arr": None}]
+        if i % 2 == 0:
+            items.append({"k": "typedef", "ty": "hyper", "name": kw + "_v", "arr": None})
+        out.append(("names:keyword-typedef", items))
+    for i in range(0, len(kws) - 3, 4):
+        a, b, c, d = kws[i:i + 4]
+        out.append(("names:keyword-declarations", [
+            {"k": "const", "name": a, "val": "3"},
+            {"k": "struct", "name": b, "fields": [{"ty": "int", "name": "x", "arr": None, "opt": False}, {"ty": "opaque", "name": "o", "arr": ["var", a], "opt": False}]},
+            {"k": "enum", "name": c, "members": [["M_" + c, "1"], ["N_" + c, "2"]]},
+            {"k": "union", "name": d, "swty": c, "swvar": "sw", "arms": [{"labels": ["M_" + c], "body": {"ty": b, "name": "x", "arr": None}}, {"labels": ["N_" + c], "body": "void"}]},
+            {"k": "struct", "name": b + "_v", "fields": [{"ty": d, "name": "u", "arr": None, "opt": False}, {"ty": b, "name": "s", "arr": None, "opt": True}]}]))
+    out.append(("names:member-like-declaration", [
+        {"k": "struct", "name": "data", "fields": [{"ty": "unsigned int", "name": "hint", "arr": None, "opt": False}, {"ty": "opaque", "name": "data", "arr": ["var", ""], "opt": False}]},
+        {"k": "struct", "name": "datas", "fields": [{"ty": "data", "name": "datas", "arr": ["var", ""], "opt": False}]},
+        {"k": "struct", "name": "entry", "fields": [{"ty": "int", "name": "v", "arr": None, "opt": False}, {"ty": "entry", "name": "entry", "arr": None, "opt": True}]},
+        {"k": "union", "name": "reply", "swty": "int", "swvar": "reply_kind", "arms": [{"labels": ["1"], "body": {"ty": "data", "name": "reply", "arr": None}},
+                                                                                     {"default": True, "labels": [], "body": {"ty": "entry", "name": "entry", "arr": None}}]},
+        {"k": "typedef", "ty": "reply", "name": "holder", "arr": None},
+        {"k": "struct", "name": "plainly", "fields": [{"ty": "int", "name": "plainly", "arr": None, "opt": False}, {"ty": "entry", "name": "data", "arr": None, "opt": False}]}]))
+    return out
+
+
 def mutate_text(text, rng):
     """token-level mutation of a specification text (delete / duplicate / swap / truncate / replace)."""
     import re
